@@ -981,6 +981,347 @@ example :
     let s := run (initClean coarse true false [[.set 2, .get 2]]) (tail 1)
     (s.ts 0).results = [.unit, .val 2] := by decide
 
+/-! ### the lock discipline of the repaired machine, for all interleavings -/
+
+/-- thread frames say: "the next thing I do with memo `m`'s lock is the store + unlock" -/
+def holderReady (frames : List Frame) (m : Nat) : Bool :=
+  match frames with
+  | .ustore m' _ _ :: _ => m' == m
+  | .yld .reactivityHeld :: .ustore m' _ _ :: _ => m' == m
+  | _ => false
+
+structure HoldsOk (s : State) : Prop where
+  fc : s.clearHolds = false
+  fm : s.markHolds = false
+  r : ∀ m, (s.ms m).r = []
+  w : ∀ m u, (s.ms m).w = some u → holderReady (s.ts u).frames m = true
+
+/-- `S` differs from `s` in nothing the lock discipline looks at -/
+def SameLocks (S s : State) : Prop :=
+  S.ts = s.ts ∧ S.clearHolds = s.clearHolds ∧ S.markHolds = s.markHolds ∧
+  ∀ m, (S.ms m).w = (s.ms m).w ∧ (S.ms m).r = (s.ms m).r
+
+theorem sameLocks_refl (s : State) : SameLocks s s := ⟨rfl, rfl, rfl, fun _ => ⟨rfl, rfl⟩⟩
+
+theorem sameLocks_setM (s : State) (m : Nat) (x : MemoSt) (hw : x.w = (s.ms m).w) (hr : x.r = (s.ms m).r) :
+    SameLocks (setM s m x) s := by
+  refine ⟨rfl, rfl, rfl, fun m' => ?_⟩
+  simp only [setM, upd]
+  split
+  · subst_vars; exact ⟨hw, hr⟩
+  · exact ⟨rfl, rfl⟩
+
+/-- a step of a thread whose head frame is neither a yield nor the store: it holds no lock -/
+theorem holdsOk_normal (s S : State) (t : Nat) (th' : Thread) (h : HoldsOk s) (hS : SameLocks S s)
+    (hnot : ∀ m, holderReady (s.ts t).frames m = false) : HoldsOk (setT S t th') := by
+  obtain ⟨hfc, hfm, hr, hw⟩ := h
+  obtain ⟨h1, h2, h3, h4⟩ := hS
+  refine ⟨by simp [setT, h2, hfc], by simp [setT, h3, hfm], ?_, ?_⟩
+  · intro m; simp only [setT]; rw [(h4 m).2]; exact hr m
+  · intro m u hu
+    simp only [setT] at hu ⊢
+    rw [(h4 m).1] at hu
+    have hready := hw m u hu
+    by_cases hut : u = t
+    · subst hut; rw [hnot m] at hready; cases hready
+    · simp only [upd, hut, if_false, h1]; exact hready
+
+theorem sameLocks_sig (s : State) (v : Nat) : SameLocks { s with sig := v } s :=
+  ⟨rfl, rfl, rfl, fun _ => ⟨rfl, rfl⟩⟩
+theorem sameLocks_sigSubs (s : State) (l : List Nat) : SameLocks { s with sigSubs := l } s :=
+  ⟨rfl, rfl, rfl, fun _ => ⟨rfl, rfl⟩⟩
+
+theorem holdsOk_general (s S : State) (t : Nat) (th' : Thread) (h : HoldsOk s) (hts : S.ts = s.ts)
+    (hc : S.clearHolds = false) (hm : S.markHolds = false) (hr : ∀ m, (S.ms m).r = [])
+    (hw' : ∀ m u, (S.ms m).w = some u →
+      (u ≠ t → (s.ms m).w = some u) ∧ (u = t → holderReady th'.frames m = true)) :
+    HoldsOk (setT S t th') := by
+  refine ⟨by simp [setT, hc], by simp [setT, hm], fun m => by simp only [setT]; exact hr m, ?_⟩
+  intro m u hu
+  simp only [setT] at hu ⊢
+  obtain ⟨h1, h2⟩ := hw' m u hu
+  by_cases hut : u = t
+  · subst hut; simp only [upd, if_true]; exact h2 rfl
+  · simp only [upd, hut, if_false, hts]; exact h.w m u (h1 hut)
+
+theorem setM_w (s : State) (m m' : Nat) (x : MemoSt) :
+    ((setM s m x).ms m').w = if m' = m then x.w else (s.ms m').w := by
+  simp only [setM, upd]; split <;> rfl
+
+theorem setM_r (s : State) (m m' : Nat) (x : MemoSt) :
+    ((setM s m x).ms m').r = if m' = m then x.r else (s.ms m').r := by
+  simp only [setM, upd]; split <;> rfl
+
+set_option maxHeartbeats 2000000 in
+theorem holdsOk_exec (s s' : State) (t : Nat) (h : HoldsOk s) (he : exec s t = some s') : HoldsOk s' := by
+  have hfc := h.fc
+  have hfm := h.fm
+  unfold exec at he
+  simp only [] at he
+  split at he
+  · cases he
+  · rename_i fr rest hfr
+    split at he
+    all_goals (try simp only [hfc, hfm, Bool.false_eq_true, ↓reduceIte] at he)
+    all_goals (repeat' (split at he))
+    all_goals (try (cases he; done))
+    all_goals (try (
+      have hnot : ∀ m, holderReady (s.ts t).frames m = false := by intro m; simp [hfr, holderReady]
+      cases he
+      refine holdsOk_normal _ _ _ _ h ?_ hnot
+      first
+      | exact sameLocks_refl _
+      | exact sameLocks_sig _ _
+      | exact sameLocks_sigSubs _ _
+      | (apply sameLocks_setM <;> rfl)))
+    · -- yld: leave the yield point
+      cases he
+      refine holdsOk_general s s t _ h rfl hfc hfm h.r ?_
+      intro m u hu
+      refine ⟨fun _ => hu, fun hut => ?_⟩
+      subst hut
+      have := h.w m u hu
+      rw [hfr] at this
+      simp only [holderReady] at this ⊢
+      split at this <;> simp_all
+    · -- uclearLock (repaired): sources taken, own lock not kept
+      rename_i hcan
+      have hnot : ∀ m, holderReady (s.ts t).frames m = false := by intro m; simp [hfr, holderReady]
+      cases he
+      refine holdsOk_normal _ _ _ _ h ?_ hnot
+      apply sameLocks_setM
+      · simp [canW] at hcan; simp [hcan.1]
+      · rfl
+    · -- uclearRm sig
+      have hnot : ∀ m, holderReady (s.ts t).frames m = false := by intro m; simp [hfr, holderReady]
+      cases he
+      exact holdsOk_normal _ _ _ _ h ⟨rfl, by simp [hfc], by simp [hfm], fun _ => ⟨rfl, rfl⟩⟩ hnot
+    · -- utrack2 sig
+      have hnot : ∀ m, holderReady (s.ts t).frames m = false := by intro m; simp [hfr, holderReady]
+      cases he
+      exact holdsOk_normal _ _ _ _ h ⟨rfl, by simp [hfc], by simp [hfm], fun _ => ⟨rfl, rfl⟩⟩ hnot
+    · -- ulock: take the write lock, next comes the store
+      have hnot : ∀ m, holderReady (s.ts t).frames m = false := by intro m; simp [hfr, holderReady]
+      cases he
+      refine holdsOk_general s _ t _ h rfl (by simp [setM, hfc]) (by simp [setM, hfm]) ?_ ?_
+      · intro m; rw [setM_r]; split <;> simp [h.r]
+      · intro m u hu
+        rw [setM_w] at hu
+        split at hu
+        · subst_vars
+          simp only [Option.some.injEq] at hu
+          subst hu
+          exact ⟨fun hne => absurd rfl hne, fun _ => by simp [holderReady]⟩
+        · refine ⟨fun _ => hu, fun hut => ?_⟩
+          subst hut
+          have := h.w m u hu
+          rw [hnot m] at this; cases this
+    · -- ustore (changed)
+      cases he
+      refine holdsOk_general s _ t _ h rfl (by simp [setM, hfc]) (by simp [setM, hfm]) ?_ ?_
+      · intro m; rw [setM_r]; split <;> simp [h.r]
+      · intro m u hu
+        rw [setM_w] at hu
+        split at hu
+        · cases hu
+        · refine ⟨fun _ => hu, fun hut => ?_⟩
+          subst hut
+          have := h.w m u hu
+          rw [hfr] at this
+          simp only [holderReady, beq_iff_eq] at this
+          rename_i hne
+          exact absurd this.symm hne
+    · -- ustore (unchanged)
+      cases he
+      refine holdsOk_general s _ t _ h rfl (by simp [setM, hfc]) (by simp [setM, hfm]) ?_ ?_
+      · intro m; rw [setM_r]; split <;> simp [h.r]
+      · intro m u hu
+        rw [setM_w] at hu
+        split at hu
+        · cases hu
+        · refine ⟨fun _ => hu, fun hut => ?_⟩
+          subst hut
+          have := h.w m u hu
+          rw [hfr] at this
+          simp only [holderReady, beq_iff_eq] at this
+          rename_i hne
+          exact absurd this.symm hne
+    · -- setSig
+      have hnot : ∀ m, holderReady (s.ts t).frames m = false := by intro m; simp [hfr, holderReady]
+      cases he
+      exact holdsOk_normal _ _ _ _ h ⟨rfl, by simp [hfc], by simp [hfm], fun _ => ⟨rfl, rfl⟩⟩ hnot
+
+theorem holdsOk_setT_frames (s : State) (t : Nat) (th' : Thread) (h : HoldsOk s)
+    (hf : th'.frames = (s.ts t).frames) : HoldsOk (setT s t th') := by
+  refine holdsOk_general s s t th' h rfl h.fc h.fm h.r ?_
+  intro m u hu
+  exact ⟨fun _ => hu, fun hut => by subst hut; rw [hf]; exact h.w m u hu⟩
+
+theorem exec_yld (s : State) (t : Nat) (y : YName) (rest : List Frame)
+    (hf : (s.ts t).frames = .yld y :: rest) :
+    exec s t = some (setT s t { s.ts t with frames := rest }) := by
+  unfold exec
+  simp [hf]
+
+theorem holdsOk_cont (fuel : Nat) : ∀ (s : State) (t : Nat), HoldsOk s → HoldsOk (cont fuel s t) := by
+  induction fuel with
+  | zero => intro s t h; exact h
+  | succ f ih =>
+    intro s t h
+    unfold cont
+    simp only []
+    split
+    · exact holdsOk_setT_frames s t _ h (by simp_all)
+    · rename_i y rest hf
+      split
+      · exact holdsOk_setT_frames s t _ h rfl
+      · exact ih _ t (holdsOk_exec s _ t h (exec_yld s t y rest hf))
+    · split
+      · exact holdsOk_setT_frames s t _ h rfl
+      · rename_i s' he
+        exact ih s' t (holdsOk_exec s s' t h he)
+
+theorem holdsOk_grant (s : State) (t : Nat) (h : HoldsOk s) : HoldsOk (grant s t) := by
+  unfold grant
+  simp only []
+  split
+  · rename_i y rest hf
+    exact holdsOk_cont _ _ t (holdsOk_exec s _ t h (exec_yld s t y rest hf))
+  · exact holdsOk_cont _ s t h
+
+theorem holdsOk_settlePass (s : State) : ∀ j, HoldsOk s → HoldsOk (settlePass s j) := by
+  intro j
+  induction j with
+  | zero => intro h; exact h
+  | succ j ih =>
+    intro h
+    unfold settlePass
+    simp only []
+    split
+    · exact holdsOk_cont _ _ j (ih h)
+    · exact ih h
+
+theorem holdsOk_settle : ∀ (r : Nat) (s : State), HoldsOk s → HoldsOk (settle s r) := by
+  intro r
+  induction r with
+  | zero => intro s h; exact h
+  | succ r ih => intro s h; unfold settle; exact ih _ (holdsOk_settlePass s s.n h)
+
+theorem holdsOk_step (s : State) (t : ThreadId) (h : HoldsOk s) : HoldsOk (step s t) := by
+  unfold step
+  simp only []
+  split
+  · exact h
+  · exact holdsOk_settle _ _ (holdsOk_grant s t h)
+
+theorem holdsOk_run (sched : List ThreadId) : ∀ s, HoldsOk s → HoldsOk (run s sched) := by
+  induction sched with
+  | nil => intro s h; exact h
+  | cons t ts ih => intro s h; exact ih _ (holdsOk_step s t h)
+
+theorem holdsOk_init (defs : List Def) (gm gl : Bool) (progs : List (List Op)) :
+    HoldsOk (init defs gm gl progs) := by
+  constructor <;> simp [init]
+
+/-- a thread is *blocked*: its next micro-step waits for a lock -/
+def blocked (s : State) (t : Nat) : Bool :=
+  match (s.ts t).frames with
+  | [] => false
+  | .yld _ :: _ => false
+  | _ => (exec s t).isNone
+
+theorem notCanR (s : State) (m : Nat) (h : (!canR s m) = true) : ∃ u, (s.ms m).w = some u := by
+  simp only [canR, Bool.not_eq_true', beq_eq_false_iff_ne, ne_eq] at h
+  cases hw : (s.ms m).w with
+  | none => exact absurd hw h
+  | some u => exact ⟨u, rfl⟩
+
+theorem notCanW (s : State) (m : Nat) (hr : (s.ms m).r = []) (h : (!canW s m) = true) :
+    ∃ u, (s.ms m).w = some u := by
+  cases hw : (s.ms m).w with
+  | none => simp [canW, hw, hr] at h
+  | some u => exact ⟨u, rfl⟩
+
+set_option maxHeartbeats 2000000 in
+/-- a micro-step only ever waits for a `reactivity` write lock that some thread holds -/
+theorem exec_none_waits (s : State) (t : Nat) (hr : ∀ m, (s.ms m).r = [])
+    (hf : (s.ts t).frames ≠ []) (he : exec s t = none) : ∃ m u, (s.ms m).w = some u := by
+  unfold exec at he
+  simp only [] at he
+  split at he
+  · rename_i h0; exact absurd h0 hf
+  · split at he
+    all_goals (repeat' (split at he))
+    all_goals (try (cases he; done))
+    all_goals (
+      rename_i hc
+      first
+      | exact ⟨_, notCanR s _ hc⟩
+      | exact ⟨_, notCanW s _ (hr _) hc⟩)
+
+theorem exec_ustore_some (s : State) (t m new : Nat) (ch : Bool) (rest : List Frame)
+    (hf : (s.ts t).frames = .ustore m new ch :: rest) : (exec s t).isSome = true := by
+  unfold exec
+  simp [hf]
+
+/-- **No lock is held across a notification or an unsubscription (repaired code).**  In every
+state the repaired memo-graph machine reaches — any graph, any programs, any number of threads,
+**every** interleaving — (1) no `reactivity` read lock is held at a micro-step boundary at all
+(`mark_dirty` / `mark_check` notify a snapshot, 0488c9f; `needs_update`, `inner_1`, `Track` take
+and drop the lock within one micro-step), and (2) a `reactivity` write lock is held across a
+micro-step boundary only by a thread whose next action is `value.write()` + store +
+`drop(reactivity_lock)` (`ustore`, possibly parked at `memo:reactivity-held` just before it) —
+a step that takes no `reactivity` lock.  So no thread ever waits for one memo's lock while holding
+another's: the "holds-while-waiting" relation between `reactivity` locks is empty. -/
+theorem C19_graph_no_lock_across_notify (defs : List Def) (gm gl : Bool) (progs : List (List Op))
+    (sched : List ThreadId) :
+    let s := run (init defs gm gl progs) sched
+    (∀ m, (s.ms m).r = []) ∧
+    (∀ m u, (s.ms m).w = some u → holderReady (s.ts u).frames m = true) := by
+  have h := holdsOk_run sched _ (holdsOk_init defs gm gl progs)
+  exact ⟨h.r, h.w⟩
+
+/-- **Deadlock freedom of the repaired memo graph, all interleavings.**  Whenever a thread is
+blocked (its next micro-step waits for a lock), the lock is write-held by ANOTHER thread that is
+itself not blocked: it is parked at a yield point (the controller can grant it) or its next
+micro-step is the store-and-unlock, which always succeeds.  Hence some thread can always move:
+no set of threads running `get` / `set` on any memo DAG deadlocks (F-C19-6 and F-C19-9 repaired;
+with either one unrepaired `C19_graph_abba_deadlock_witness` deadlocks). -/
+theorem C19_graph_deadlock_free (defs : List Def) (gm gl : Bool) (progs : List (List Op))
+    (sched : List ThreadId) (t : Nat) :
+    let s := run (init defs gm gl progs) sched
+    blocked s t = true →
+      ∃ u m, u ≠ t ∧ (s.ms m).w = some u ∧ (s.ts u).frames ≠ [] ∧ blocked s u = false := by
+  intro s hb
+  have h : HoldsOk s := holdsOk_run sched _ (holdsOk_init defs gm gl progs)
+  -- t's head frame is a real micro-step that returns `none`
+  have hne : (s.ts t).frames ≠ [] := by
+    intro h0; simp [blocked, h0] at hb
+  have hex : exec s t = none := by
+    unfold blocked at hb
+    split at hb
+    · cases hb
+    · cases hb
+    · simpa using hb
+  obtain ⟨m, u, hw⟩ := exec_none_waits s t h.r hne hex
+  have hready := h.w m u hw
+  -- the holder's frames start with the store (or the yield point right before it)
+  have hu : (s.ts u).frames ≠ [] ∧ blocked s u = false := by
+    unfold holderReady at hready
+    split at hready
+    · rename_i m' new ch rest hf
+      refine ⟨by simp [hf], ?_⟩
+      have := exec_ustore_some s u m' new ch rest hf
+      simp [blocked, hf, this]
+    · rename_i m' new ch rest hf
+      exact ⟨by simp [hf], by simp [blocked, hf]⟩
+    · cases hready
+  refine ⟨u, m, ?_, hw, hu.1, hu.2⟩
+  intro hut
+  subst hut
+  rw [hb] at hu
+  exact absurd hu.2 (by decide)
+
 end Graph
 
 /-! ## concurrent `notify_subs` -/
@@ -1119,5 +1460,21 @@ theorem C19_await_writer_ready_partial (polls : Nat) (sched : List ThreadId) :
   simp [lost, this]
 
 end AwaitW
+
+/-! ## an `ImmediateEffect` on a memo (single thread) -/
+namespace Imm
+
+/-- **F-C19-9 (repaired by 0488c9f)**: `s = 1`, `m = s * 2`, an `ImmediateEffect` reading `m`,
+then `s.set(2)`.  Before the repair the memo notified its subscribers while holding its own
+`reactivity` read lock; the effect ran synchronously, read the memo, and `update_if_necessary`
+waited for that lock's write side on the same thread: the `set` never returned.  Now it returns
+and the effect has seen 4.  Replayed on the real code by corpus/C19/imm-memo.ops (and, with the
+reverse diff of 0488c9f, reported as `fail hang`). -/
+theorem C19_imm_memo_hang_witness :
+    let defs : List Graph.Def := [{ f := .mul 2, reads := [.sig] }]
+    (exec true defs [.set 2]).hung = true ∧
+    (exec false defs [.set 2]).hung = false ∧ (exec false defs [.set 2]).last = 4 := by decide
+
+end Imm
 
 end Leptos.Park
